@@ -105,6 +105,23 @@ def _has_forall(e):
     return False
 
 
+def _const_names(terms):
+    """names of the uninterpreted constants occurring in the terms"""
+    seen, names, stack = set(), set(), list(terms)
+    while stack:
+        x = stack.pop()
+        if x.get_id() in seen:
+            continue
+        seen.add(x.get_id())
+        if z3.is_quantifier(x):
+            stack.append(x.body())
+        elif z3.is_app(x):
+            if x.num_args() == 0 and x.decl().kind() == z3.Z3_OP_UNINTERPRETED:
+                names.add(x.decl().name())
+            stack.extend(x.children())
+    return names
+
+
 def query_text(ob, relaxed=False):
     s = z3.Solver()
     facts = relevant_facts(ob.hyps, ob.goal, list(ob.facts))
@@ -118,7 +135,7 @@ def query_text(ob, relaxed=False):
         s.add(h)
     for f in facts:
         s.add(f)
-    for d in S.str_distinct_facts():
+    for d in S.str_distinct_facts(_const_names(list(ob.hyps) + list(facts) + [ob.goal])):
         s.add(d)
     if not ob.expect_sat:
         s.add(z3.Not(ob.goal))
